@@ -333,6 +333,36 @@ def _run(info, out, R):
     for i in range(nfiles):
         f = gen_file(rng.fork("file%d" % i), boundary=(i % 10 == 9))
         cases.append({"gen": f, "path": None, "convs": gen_convs(rng.fork("conv%d" % i), f, 2)})
+    # files whose extension HDUs are NOT in the order write_fits produces (the readers find KNOTSn / EXTENTS by name, so any
+    # order is a valid spline file): written by the library first, then the HDUs are rearranged byte-wise
+    import C07mut
+    nre = 0
+    for i in range(12 if info["tier"] == "quick" else 300):
+        r3 = rng.fork("reord%d" % i)
+        f = gen_file(r3.fork("f"), boundary=False)
+        if len(f["orders"]) < 2 and r3.chance(0.7):
+            continue
+        src = os.path.join(R.tmp, "reord_src_%d.fits" % i)
+        pgen = subprocess.run([R.harness], input=gen_line(src, f) + "\n", stdout=subprocess.PIPE, stderr=subprocess.PIPE, text=True,
+                              env=dict(os.environ, ASAN_OPTIONS="detect_leaks=0"), timeout=300)
+        if pgen.returncode != 0 or not os.path.exists(src):
+            continue
+        hd = C07mut.parse(open(src, "rb").read())
+        rest = hd[1:]
+        how = r3.choice(["reverse", "extents-first", "shuffle", "swap-first-two"])
+        if how == "reverse":
+            rest = rest[::-1]
+        elif how == "extents-first":
+            rest = [h for h in rest if h.strkey("EXTNAME") == "EXTENTS"] + [h for h in rest if h.strkey("EXTNAME") != "EXTENTS"]
+        elif how == "shuffle":
+            r3.shuffle(rest)
+        elif len(rest) >= 2:
+            rest[0], rest[1] = rest[1], rest[0]
+        dst = os.path.join(R.tmp, "reord_%d.fits" % i)
+        open(dst, "wb").write(C07mut.serialise([hd[0]] + rest))
+        os.remove(src)
+        cases.append({"gen": None, "path": dst, "convs": gen_convs(r3.fork("conv"), f, 2), "reordered": how})
+        nre += 1
     if info["tier"] == "thorough":
         # the convolutions gen_convs avoids for time (factorial(0) loops 2^32 times, D4): one of each kind on the real code
         cases.append({"gen": {"periods": 0, "orders": [0, 2], "nknots": [4, 7], "aux": [["SLOW1", "order-0 dimension convolved"]]}, "path": None, "convs": [[3, 0]]})
